@@ -23,15 +23,22 @@ void h_add_key(void) {
 }
 #else
 /* the recursive JSON::parse(r, disable_extensions) at a position where the serialiser put a child or a key: whitespace, then
- * either a string (the real string branch) or the value token */
-char g_childbuf[8]; vstr g_childdata; vstr g_keys[2]; char g_keybuf[2][16];
+ * either a string (keys of the bounded run are at most one plain letter; escaping is pieces 1 and 2) or the value token */
+vstr g_keys[2]; char g_keybuf[2][4];
 static void skip_whitespace_and_comments(StringReader* r, bool disable_extensions);
 static void C04_parse_child(StringReader* r, bool disable_extensions, JSONV* out)
 {
   skip_whitespace_and_comments(r, disable_extensions); if (verif_exc) return;
   int d = JSON_parse_dispatch(r); if (verif_exc) return;
-  if (d == 4) { g_childdata.data = g_childbuf; g_childdata.size = 0; g_childdata.cap = 8; JSON_parse_string(r, out, &g_childdata); return; }
   char c = StringReader_get_s8(r, false); if (verif_exc) return;
+  if (d == 4) {                       /* a string without escapes: through the closing quotation mark */
+    StringReader_get_s8(r, true);
+    for (int k = 0; k < 3; k++) {
+      c = StringReader_get_s8(r, true); if (verif_exc) return;
+      if (c == '"') { out->kind = JK_string; return; }
+    }
+    verif_exc = EXC_parse_error; return;
+  }
   if (c == 'V') { StringReader_get_s8(r, true); out->kind = JK_int64_t; return; }
   verif_exc = EXC_parse_error;      /* ] } , : and the like: "unknown root sentinel" */
 }
@@ -45,9 +52,10 @@ void h_container_bounded(void) {
   __CPROVER_assume(in_n <= C04_NMAX && in_indent <= 1 && in_kn0 <= 1 && in_kn1 <= 1);
   __CPROVER_assume(C04_MODE_OK(in_strict, in_options));
   __CPROVER_assume(in_kn0 != in_kn1 || (in_kn0 == 1 && in_k0 != in_k1));      /* keys of a dictionary are pairwise distinct */
+  __CPROVER_assume(in_k0 >= 'a' && in_k0 <= 'z' && in_k1 >= 'a' && in_k1 <= 'z');
   g_keybuf[0][0] = in_k0; g_keybuf[1][0] = in_k1;
-  g_keys[0].data = g_keybuf[0]; g_keys[0].size = in_kn0; g_keys[0].cap = 16;
-  g_keys[1].data = g_keybuf[1]; g_keys[1].size = in_kn1; g_keys[1].cap = 16;
+  g_keys[0].data = g_keybuf[0]; g_keys[0].size = in_kn0; g_keys[0].cap = 4;
+  g_keys[1].data = g_keybuf[1]; g_keys[1].size = in_kn1; g_keys[1].cap = 4;
   int esc = JSON_ser_escape_mode(in_options);
   g_options = in_options; g_indent = in_indent; g_mode = esc; g_format = (in_options & SerializeOption_FORMAT) != 0; g_args_ok = 1; g_q = 0; g_count = 0;
   verif_exc = 0;
